@@ -620,6 +620,15 @@ func (w *world) register(pos int, op Op, putIDs []string, obsv *localkms.LocalKM
 			continue
 		}
 
+		// the key type of what is stored under id now (also when the call was interrupted after its Put and the
+		// caller never got the id back): a later Rotate by the harness uses the keyset's own type
+		switch op.Kind {
+		case "create", "createx", "import":
+			w.idKT(id, op.KT)
+		case "rotate":
+			w.idKT(id, w.ktOfID(w.refID(op.Ref)))
+		}
+
 		h := kh.(*keyset.Handle)
 		mats, _ := material(h)
 
